@@ -1,7 +1,213 @@
-(** temporarily reduced while the proofs are ported to n-ary concat / program stdin (full file: work/c14tmp/C14.v.v3) *)
+(** Property C14 - a text has one value however it is consumed.  Theorem statements only.
+
+    Vocabulary (Model/StrSrc.v, Spec/C14.v, Proofs/StrSrcViews.v):
+    [src]       a string source expression together with the state of its Python objects;
+    [den x]     the text the expression denotes (declarative: Spec/C14.v);
+    [run b accs x]  the observations made by the access sequence [accs] (as_str, as_lines, as_file,
+                may_depend_on_external_resources, freeze - in any order, any length) on [x] created
+                with mem_buff_size [b];
+    [obs_ok t o]  observation [o] shows exactly the text [t]: same characters, divided into lines
+                after each "\n", file with exactly these characters, nothing raised;
+    [fresh x]   newly created objects (nothing cached, not frozen);
+    [leaves_ok x]  every literal / file / program output of the expression consists of Unicode scalar
+                values and contains no [str.splitlines] boundary other than "\n" (no \r \v \f FS GS RS
+                NEL LS PS);
+    [lfs_ok x]  every line transformation in the expression maps well-formed sequences of such lines
+                to well-formed sequences of such lines, every external program (program sources with
+                their stdin parts, [run]) maps such texts to such texts, every concat has at least one part. *)
 From Coq Require Import NArith List Bool.
-From Exactly Require Import Lib.Text Lib.TextLemmas Model.StrSrc Spec.C14.
+From Exactly Require Import Lib.Text Lib.TextLemmas Model.StrSrc Spec.C14 Proofs.Utf8 Proofs.StrSrcSpool Proofs.StrSrcViews
+  Proofs.StrSrcMatch.
+Import ListNotations.
+Local Open Scope N_scope.
+
+(** Iterating a text file and [str.splitlines(True)] divide a text into the same lines when the
+    text contains no line boundary of [str.splitlines] other than "\n". *)
 Theorem C14_splitlines_is_file_iteration :
   forall t : text, no_exotic_breaks t = true -> splitlines_keepends t = lines_lf t.
 Proof. exact splitlines_eq_lines_lf. Qed.
 Print Assumptions C14_splitlines_is_file_iteration.
+
+(** The lines of a text concatenate to the text; every line but possibly the last ends in "\n"
+    and contains no other "\n"; and a well-formed line sequence is the line sequence of its
+    concatenation. *)
+Theorem C14_lines_of_text :
+  forall t : text, concat (lines_lf t) = t /\ wf_lines (lines_lf t) = true /\
+                   (forall ls, wf_lines ls = true -> lines_lf (concat ls) = ls).
+Proof. intros t. split; [apply concat_lines_lf | split; [apply wf_lines_lines_lf | exact lines_lf_concat]]. Qed.
+Print Assumptions C14_lines_of_text.
+
+(** The spooled file (memory buffer of ANY size [b], rolled over to disk when exceeded) keeps
+    exactly what is written to it line by line - all characters, also non-ASCII ones. *)
+Theorem C14_spool_keeps_text :
+  forall (b : N) (ls : list text) (d : text),
+    spool_lines b (SpMem d) ls = SpMem (d ++ concat ls) \/
+    spool_lines b (SpMem d) ls = SpDisk (utf8 (d ++ concat ls)) (length (utf8 (d ++ concat ls))).
+Proof. exact spool_lines_complete. Qed.
+Print Assumptions C14_spool_keeps_text.
+
+Theorem C14_utf8_roundtrip : forall t : text, valid_text t = true -> utf8_decode (utf8 t) = Some t.
+Proof. exact utf8_roundtrip. Qed.
+Print Assumptions C14_utf8_roundtrip.
+
+(** The line iterator of [replace] is the division into lines of the substituted text, whatever the
+    substitution does to the single lines: remove their new-lines, insert new-lines, anything. *)
+Theorem C14_replace_lines_are_the_lines_of_the_text :
+  forall (sub : text -> text) (ls : list text), lf_replace sub ls = lines_lf (concat (map sub ls)).
+Proof. exact lf_replace_spec. Qed.
+Print Assumptions C14_replace_lines_are_the_lines_of_the_text.
+
+(** MAIN THEOREM (partial: under the guard [leaves_ok]; without it the statement is refuted below -
+    known findings KF-C14-1, KF-C14-2).
+    For every source expression (literal, file, program output captured from stdout or stderr with any
+    number of stdin parts, any nesting of line transformers, filters, [run], concatenations of any
+    number of parts of any kinds), every memory buffer size from 0 upwards, every sequence of accesses of any
+    length in any order before and after freezing: every observation shows exactly the text the
+    expression denotes. *)
+Theorem C14_views_agree_partial :
+  forall (x : src) (b : N) (accs : list access),
+    fresh x -> leaves_ok x = true -> lfs_ok x ->
+    forallb (obs_ok (den x)) (fst (run b accs x)) = true.
+Proof. exact views_agree. Qed.
+Print Assumptions C14_views_agree_partial.
+
+(** The memory buffer size is irrelevant: the same access sequence on the same expression gives the same
+    observations for any two buffer sizes (the dependency hint, which is not part of the text, aside). *)
+Theorem C14_buffer_size_irrelevant_partial :
+  forall (x : src) (accs : list access) (b1 b2 : N),
+    fresh x -> leaves_ok x = true -> lfs_ok x ->
+    map strip_dep (fst (run b1 accs x)) = map strip_dep (fst (run b2 accs x)).
+Proof. exact buffer_size_irrelevant. Qed.
+Print Assumptions C14_buffer_size_irrelevant_partial.
+
+(** concat._lines_iter for ANY number of parts: the lines it yields for well-formed parts are the lines of
+    the concatenated text. *)
+Theorem C14_concat_lines_any_number_of_parts :
+  forall ts : list text, ts <> [] -> concat_lines_n (map lines_lf ts) = Some (lines_lf (concat ts)).
+Proof. exact concat_lines_n_ok. Qed.
+Print Assumptions C14_concat_lines_any_number_of_parts.
+
+(** The same for the expressions of the modelled surface language, SOURCE [-transformed-by T] with
+    T built from identity, char-case, filter (any line predicate), replace (any substitution), run PROGRAM and sequences: the
+    hypotheses about line transformers are discharged; what remains is the guard on the texts and
+    on the external programs and substitutions ([otrans_ok]: each maps admitted texts to admitted texts). *)
+Theorem C14_views_agree_language_partial :
+  forall (base : src) (t : option trans) (b : N) (accs : list access),
+    fresh base -> lfs_ok base -> leaves_ok base = true -> otrans_ok t ->
+    forallb (obs_ok (den (build base t))) (fst (run b accs (build base t))) = true.
+Proof.
+  intros base t b accs F0 K0 L A. destruct (build_guard base t A F0 K0) as [F [G E]].
+  apply views_agree; [exact F | now rewrite E | exact G].
+Qed.
+Print Assumptions C14_views_agree_language_partial.
+
+(** REFUTED without the guard (faithful model of the unchanged code; both replayed on the real
+    program, DESIGN.md Appendix A7/A8):
+    (1) file "a\x0cb\n" through a filter: one line before freezing, two lines after (str.splitlines);
+    (2) file "a\r\nb\r\n": as_str shows "a\nb\n" while the file holds "a\r\nb\r\n". *)
+Theorem C14_views_agree_refuted :
+  (exists (x : src) (b : N) (accs : list access),
+      fresh x /\ lfs_ok x /\ no_cr (den x) = true /\ forallb (obs_ok (den x)) (fst (run b accs x)) = false) /\
+  (exists (x : src) (b : N) (accs : list access),
+      fresh x /\ lfs_ok x /\ forallb (fun c => negb (is_exotic_break c && negb (N.eqb c CR))) (den x) = true /\
+      forallb (obs_ok (den x)) (fst (run b accs x)) = false).
+Proof.
+  split.
+  - exists (SFilter (lf_filter (p_has 97)) cs0 (SFile [97; 12; 98; 10])), 8192, [ALines; AFreeze; ALines].
+    split; [cbn; auto|]. split; [cbn; split; [apply lf_ok_filter | exact I]|]. split; vm_compute; reflexivity.
+  - exists (SFile [97; 13; 10; 98; 13; 10]), 8192, [AStr; AFile].
+    split; [exact I|]. split; [exact I|]. split; vm_compute; reflexivity.
+Qed.
+Print Assumptions C14_views_agree_refuted.
+
+(** Writing several parts to one file as it was BEFORE the repair (commit 527f9c3, found by this
+    check; regression input harness/corpus/C14/concat_program_part_d.case): a literal part followed by
+    a part written by a child process through the descriptor ended up in the opposite order. *)
+Theorem C14_prefix_concat_file_refuted :
+  exists evs : list wev, file_of_events_prefix evs <> text_of evs /\ file_of_events evs = text_of evs.
+Proof. exists [WStr [88]; WFd [97; 10; 98; 10]]. split; [vm_compute; discriminate | reflexivity]. Qed.
+Print Assumptions C14_prefix_concat_file_refuted.
+
+(** The rollover of the spooled file as it was BEFORE the repair (commit 9d1b36a, found by this
+    check): with a non-ASCII character in the memory buffer the lines written after the rollover
+    overwrite the tail of what was written before. *)
+Theorem C14_prefix_spool_keeps_text_refuted :
+  exists (b : N) (ls : list text),
+    spool_lines_prefix b (SpMem []) ls <> SpMem (concat ls) /\
+    forall pos, spool_lines_prefix b (SpMem []) ls <> SpDisk (utf8 (concat ls)) pos.
+Proof.
+  exists 1, [[8364; 97; 10]; [98; 10]]. split; [vm_compute; discriminate|].
+  intros pos. vm_compute. intros H. discriminate H.
+Qed.
+Print Assumptions C14_prefix_spool_keeps_text_refuted.
+
+(** CONSEQUENCES (partial: same guard, also on the expected operands of [equals] - [matcher_ok]).
+    [m_eval b extra m x]: the verdict the matcher [m] (num-lines, is-empty, equals SOURCE with its four
+    comparison strategies incl. filecmp, !, &&, || - which freeze the model -, -transformed-by T) gives
+    on the source [x]; [sem_m m t]: the declarative meaning of [m] on the TEXT [t]. *)
+Theorem C14_verdict_depends_only_on_text_partial :
+  forall (m : smatcher) (x : src) (b extra : N),
+    fresh x -> leaves_ok x = true -> lfs_ok x -> matcher_ok m ->
+    fst (m_eval b extra m x) = Some (sem_m m (den x)).
+Proof. exact verdict_is_semantic. Qed.
+Print Assumptions C14_verdict_depends_only_on_text_partial.
+
+(** M, ( M && M ), ( M || M ) and M with the operand wrapped in [identity] give one verdict. *)
+Theorem C14_identity_and_conj_idempotent_partial :
+  forall (m : smatcher) (x : src) (b extra : N),
+    fresh x -> leaves_ok x = true -> lfs_ok x -> matcher_ok m ->
+    map (fun m' => fst (m_eval b extra m' x)) [m; MConj m m; MDisj m m; MOnTrans (TAtom TId) m]
+    = [Some (sem_m m (den x)); Some (sem_m m (den x)); Some (sem_m m (den x)); Some (sem_m m (den x))].
+Proof. intros m x b extra F L K Hm. exact (variants_agree m x b extra F L K Hm). Qed.
+Print Assumptions C14_identity_and_conj_idempotent_partial.
+
+(** [equals]: expected text [te] and actual text [ta] (optionally transformed) each coming from a
+    literal, a file or a program's output - all 9 combinations give the verdict "the texts are equal". *)
+Theorem C14_source_kind_irrelevant_partial :
+  forall (pk : pkind) (sin : bool) (te ta : text) (tr : option trans) (b extra : N),
+    text_ok te = true -> text_ok ta = true -> otrans_ok tr ->
+    forall v, In v (kind_verdicts pk sin b extra te ta tr) -> v = Some (text_eqb te (den (build (SStr ta) tr))).
+Proof. exact kinds_agree. Qed.
+Print Assumptions C14_source_kind_irrelevant_partial.
+
+(** REFUTED without the guard (both replayed on the real program, DESIGN.md Appendix A7 / A8):
+    (1) "a\x0cb\n" through a filter: [num-lines == 1] passes, [( num-lines == 1 && num-lines == 1 )] fails;
+    (2) CR LF files: [equals -contents-of F2] passes on F1, fails when F1 is wrapped in [identity]. *)
+Theorem C14_identity_and_conj_idempotent_refuted :
+  (exists (m : smatcher) (x : src) (b extra : N),
+      fresh x /\ lfs_ok x /\ matcher_ok m /\
+      fst (m_eval b extra m x) = Some true /\ fst (m_eval b extra (MConj m m) x) = Some false) /\
+  (exists (e x : src) (b extra : N),
+      fresh x /\ lfs_ok x /\ fresh e /\ lfs_ok e /\
+      fst (m_eval b extra (MEquals e) x) = Some true /\
+      fst (m_eval b extra (MOnTrans (TAtom TId) (MEquals e)) x) = Some false).
+Proof.
+  split.
+  - exists (MNumLines CEq 1), (SFilter (lf_filter (p_has 97)) cs0 (SFile [97; 12; 98; 10])), 8192, 100.
+    split; [cbn; auto|]. split; [cbn; split; [apply lf_ok_filter | exact I]|]. split; [exact I|].
+    split; vm_compute; reflexivity.
+  - exists (SFile [97; 13; 10; 98; 13; 10]), (SFile [97; 13; 10; 98; 13; 10]), 8192, 100.
+    split; [exact I|]. split; [exact I|]. split; [exact I|]. split; [exact I|]. split; vm_compute; reflexivity.
+Qed.
+Print Assumptions C14_identity_and_conj_idempotent_refuted.
+
+(** Non-vacuity: a source with a transformer chain, a non-ASCII multi-line text without final
+    newline, a buffer smaller than the text, accesses before and after freezing - satisfies the
+    hypotheses of the main theorem, rolls over to disk, and shows one value. *)
+Example C14_example :
+  let x := build (SProg PFile (g_prefix [8364; 97; 10]) cs0 [SStr [10; 98; 99]]) (Some (TSeq [TId; TReplace (subst [97; 10] [97]); TFilter (p_num_ge 1); TRun g_cat; TUpper])) in
+  leaves_ok x = true /\ den x = [8364; 65; 10; 66; 67] /\
+  fst (run 2 [AFile; AFreeze; ADep; ALines; AStr; AFile] x)
+  = [OFile (FText [8364; 65; 10; 66; 67]); OFrozen; ODep true; OLines [[8364; 65; 10]; [66; 67]];
+     OStr [8364; 65; 10; 66; 67]; OFile (FText [8364; 65; 10; 66; 67])].
+Proof. cbv zeta. split; [vm_compute; reflexivity|]. split; vm_compute; reflexivity. Qed.
+
+(** Non-vacuity of the consequences: a matcher using every construct, expected text from a program,
+    model from a file through a transformer chain, small buffer. *)
+Example C14_example_verdicts :
+  let x := build (SFile [97; 10; 98; 10; 99]) (Some (TAtom (TFilter (p_num_ne 2)))) in
+  let m := MConj (MNeg MEmpty) (MDisj (MNumLines CGe 3) (MOnTrans (TSeq [TUpper; TId]) (MEquals (SConcat cs0 [SFile [65]; SStr []; SProg PFd g_cat cs0 [SStr [10]; SFile [67]]])))) in
+  leaves_ok x = true /\
+  map (fun m' => fst (m_eval 1 100 m' x)) (variants m) = [Some true; Some true; Some true; Some true] /\
+  kind_verdicts PFile true 2 100 [97; 10; 98] [97; 10; 98] (Some (TAtom TId)) = repeat (Some true) 9.
+Proof. cbv zeta. split; [vm_compute; reflexivity|]. split; vm_compute; reflexivity. Qed.
